@@ -23,7 +23,7 @@ import (
 )
 
 func init() {
-	register(&Prop{ID: "C38", Module: "V.C38.Check", Gen: c38Gen, Quick: 900, Thorough: 12000, Shard: 150})
+	register(&Prop{ID: "C38", Module: "V.C38.Check", Gen: c38Gen, Quick: 900, Thorough: 12000, Shard: 300})
 }
 
 // ---------------------------------------------------------------- abstract model of a diagram (generator side)
@@ -1125,6 +1125,13 @@ func c38Features(pg *c38PGraph, op *c38Op) map[string]bool {
 			s, d := pg.byObj[e.edge.Src], pg.byObj[e.edge.Dst]
 			if (s == t && d != t && t.isAnc(d)) || (d == t && s != t && t.isAnc(s)) {
 				f["edge-to-own-descendant"] = true
+				// ... and that edge is also addressed by an edge-key reference `p.(q.x -> q)[0].attr` written
+				// from an outer scope (key prefix before the parenthesis)
+				for _, ref := range e.edge.References {
+					if ref.MapKey != nil && ref.MapKey.EdgeIndex != nil && ref.MapKey.Key != nil && len(ref.MapKey.Key.Path) > 0 {
+						f["edge-key-ref-to-own-descendant"] = true
+					}
+				}
 			}
 		}
 	}
@@ -1157,6 +1164,26 @@ func c38Features(pg *c38PGraph, op *c38Op) map[string]bool {
 			for i := range a {
 				if a[i] != b[i] {
 					f["move-deltas-sibling-names"] = true
+				}
+			}
+		}
+	}
+	if op.Kind == "move" || op.Kind == "rename" {
+		// an edge whose ID changes is also addressed by an edge reference of the form `p.(a -> _.b)[0]...`
+		// (key prefix plus an endpoint that climbs out with `_`); move() does not rewrite such references
+		for _, e := range pg.Edges {
+			s, d := pg.byObj[e.edge.Src], pg.byObj[e.edge.Dst]
+			if !t.isAnc(s) && !t.isAnc(d) {
+				continue
+			}
+			for _, ref := range e.edge.References {
+				if ref.MapKey == nil || ref.MapKey.Key == nil || len(ref.MapKey.Key.Path) == 0 || ref.Edge == nil {
+					continue
+				}
+				for _, k := range []*d2ast.KeyPath{ref.Edge.Src, ref.Edge.Dst} {
+					if k != nil && len(k.Path) > 0 && k.Path[0].Unbox().ScalarString() == "_" {
+						f["move-prefixed-underscore-edge-ref"] = true
+					}
 				}
 			}
 		}
@@ -1241,8 +1268,9 @@ func c38KFMap(pg *c38PGraph, op *c38Op, m map[string]string) []string {
 
 func c38KF(pg *c38PGraph, op *c38Op, text string) []string {
 	return c38KFMap(pg, op, map[string]string{
-		"flat-field-leak":        "C38-delete-flat-field-leaks-to-parent",
-		"hoist-undetected-child": "C38-hoist-conflict-not-detected-for-flat-field-child",
+		"flat-field-leak":                "C38-delete-flat-field-leaks-to-parent",
+		"hoist-undetected-child":         "C38-hoist-conflict-not-detected-for-flat-field-child",
+		"edge-key-ref-to-own-descendant": "C38-delete-edge-key-reference-resurrects-object",
 	})
 }
 
@@ -1281,6 +1309,8 @@ var c38Scripts = []c38Step{
 	{"a: L1\nb: L2\na -> b: E1\na -> b: E2\na -> b: E3\n(a -> b)[2].style.stroke: red\n(a -> b)[1].style.opacity: 0.4\n", "deledge", "(a -> b)[0]", "", false},
 	{"a: L1\nb: L2\na -> b: E1\na -> b: E2\na -> b: E3\n(a -> b)[2].style.stroke: red\n(a -> b)[1].style.opacity: 0.4\n", "deledge", "(a -> b)[1]", "", false},
 	{"c: L1 {\n  a: L2\n  b: L3\n  a -> b: E1\n  a -> b: E2\n  (a -> b)[1].style.stroke: red\n}\n", "deledge", "c.(a -> b)[0]", "", false},
+	// edge between the deleted object and its own child, also addressed by an edge-key reference from outside
+	{"p: L2 {\n  q: L3 {\n    x: L4\n  }\n  q.x -> q: E1\n}\np.(q.x -> q)[0].style.opacity: 0.5\n", "delobj", "p.q", "", false},
 	// attributes
 	{c38Corpus[4], "delobjattr", "d.tooltip", "", false},
 	{c38Corpus[4], "deledgeattr", "(a.b.c -> d)[0].style.stroke", "", false},
